@@ -1,4 +1,5 @@
 import HapVerif.Model.C18
+import HapVerif.Model.C18Hist
 import HapVerif.Generated.Facts
 import HapVerif.Drv.Common
 /-!
@@ -6,6 +7,9 @@ Driver of C18.  Case lines (see harness/cmd/hv/c18.go):
 
   `C18 <glob> <ing>[,<ing>...] => <path>|...||<binds>`   a full converter Sync + rendered haproxy.cfg
   `C18 alloc <rs> <re> <op>[,<op>...] => <res>,...||<binds>`   Frontend.AcquireAuthBackendName & co
+  `C18 hist <glob> <ing>[,<ing>...] <batch>[/<batch>...] => <path>|...||<binds>||<dirty>/...[||cfg=<binds>]`
+      a full sync + HAProxyUpdate (commit), then one PARTIAL sync per batch (ops `a:<ing>`, `d:<k>`,
+      `u:<k>:<ing>`, `,`-joined); the path records are those of the ingresses alive at the end
 
 The abstraction of the concrete annotation values of the harness grammar (what each auth-url means
 to `setAuthExternal`) is the table `urlOf` below.
@@ -65,7 +69,7 @@ def pathName : Nat → Option String
   | _ => none
 
 def svcName : Nat → Option String
-  | 0 => some "echo0" | 1 => some "echo1" | 2 => some "oauth2proxy"
+  | 0 => some "echo0" | 1 => some "echo1" | 2 => some "oauth2proxy" | 3 => some "echo3"
   | _ => none
 
 structure IngTok where
@@ -77,6 +81,7 @@ structure IngTok where
   plc : String
   oauth : String
   signin : String
+deriving Repr, DecidableEq
 
 def parseIng (s : String) : Option IngTok :=
   match s.splitOn "." with
@@ -287,6 +292,185 @@ def handleAlloc (rs re ops impl : String) : Verdict :=
     | _, _ => bad "alloc-parse"
   | _, _, _ => bad "alloc"
 
+/-! ### histories: a full sync, then partial syncs
+
+What the tracker links an ingress of the grammar to (`Slot`): its host, its service, and for an
+auth-url `svc://<name>:<port>` the named service — linked to the host before the service is looked
+up, so also when it is missing or lacks the port; the service backend exists (and is the target of
+the binds) when the pre-build of `syncIngressHTTP` succeeded. -/
+
+def authLinkOf : String → Option String × Option Nat
+  | "s1" | "sv" => (some "A:default/authsvc", some 5)
+  | "sx" => (some "A:default/authsvc", none)          -- port 9999 is not exposed: no backend
+  | "so" => (some "A:other/authsvc2", some 6)         -- built whatever cross-namespace-services says
+  | "sm" => (some "A:default/missing", none)
+  | "sn" => (some "A:other/nope", none)
+  | _ => (none, none)                                   -- http(s), no port (`sp`), unparsable
+
+def slotOf (xns : Bool) (live : List IngTok) (g : IngTok) : Option Slot := do
+  let p ← pathOf xns live g
+  pure { path := p, hostKey := "H" ++ toString g.host, svcKey := "S" ++ toString g.svc,
+         authKey := (authLinkOf g.url).1, authBack := (authLinkOf g.url).2 }
+
+def slotsOf (xns : Bool) (toks : List (Option IngTok)) : Option Slots :=
+  let live := toks.filterMap id
+  toks.mapM fun
+    | none => some none
+    | some g => (slotOf xns live g).map some
+
+inductive HistOp where
+  | add (g : IngTok)
+  | del (k : Nat)
+  | upd (k : Nat) (g : IngTok)
+
+def parseOp (s : String) : Option HistOp :=
+  match s.splitOn ":" with
+  | ["a", g] => (parseIng g).map .add
+  | ["d", k] => do
+    let k ← k.toNat?
+    if k ≥ 1 then some (.del (k - 1)) else none
+  | ["u", k, g] => do
+    let k ← k.toNat?
+    let g ← parseIng g
+    if k ≥ 1 then some (.upd (k - 1) g) else none
+  | _ => none
+
+/-- slots and the indices changed so far in the batch; `none`: the op names a slot that is not
+alive or was already changed in this batch -/
+def applyOp (acc : List (Option IngTok) × List Nat) : HistOp → Option (List (Option IngTok) × List Nat)
+  | .add g => some (acc.1 ++ [some g], acc.2 ++ [acc.1.length])
+  | .del k =>
+    match acc.1[k]? with
+    | some (some _) => if acc.2.contains k then none else some (acc.1.set k none, acc.2 ++ [k])
+    | _ => none
+  | .upd k g =>
+    match acc.1[k]? with
+    | some (some _) => if acc.2.contains k then none else some (acc.1.set k (some g), acc.2 ++ [k])
+    | _ => none
+
+/-- the generator's scope: live (host, path) pairs distinct, the /oauth2 publishers never change -/
+def histScopeOk (states : List (List (Option IngTok))) : Bool :=
+  states.all (fun toks => ((toks.filterMap id).map fun g => (g.host, g.path)).Nodup) &&
+  (match states with
+   | [] => true
+   | s0 :: rest =>
+     let pubs (toks : List (Option IngTok)) :=
+       (List.range toks.length).filterMap fun i =>
+         match toks[i]?.join with
+         | some g => if g.path = 9 then some (i, g) else none
+         | none => none
+     rest.all fun s => pubs s == pubs s0)
+
+def insertStr (a : String) : List String → List String
+  | [] => [a]
+  | b :: r => if a < b then a :: b :: r else b :: insertStr a r
+
+def sortStrs (l : List String) : List String := l.foldr insertStr []
+
+def dots (pre : String) (l : List Nat) : String :=
+  if l.isEmpty then "-" else ".".intercalate (sortStrs (l.map fun n => pre ++ toString n))
+
+def showDirty (d : Dirty) : String :=
+  dots "h" d.hosts ++ ":" ++ dots "b" d.backs ++ ":" ++ dots "t" d.targets
+
+def liveIdxs (w : World) : List Nat :=
+  (List.range w.paths.length).filter fun i =>
+    match w.paths[i]? with
+    | some p => !isDead p
+    | none => false
+
+def showHistState (w : World) (st : St) : String :=
+  let l := liveIdxs w
+  (if l.isEmpty then "-" else "|".intercalate (l.map (showPath w st))) ++ "||" ++ showBinds st.binds
+
+/-- hosts (backends) whose phase can touch the bind list come in every order, after the others
+(the phase of a host without frontend auth-url is the identity; the phase of a backend without a
+backend placed auth-url writes the oauth records of its own paths only) -/
+def hostOrders (w : World) (hs : List Nat) : List (List Nat) :=
+  let act := hs.filter fun h => hostPlc w h == .frontend && (hostUrl w h).nonEmpty
+  let rest := hs.filter fun h => !act.contains h
+  (perms act).map (rest ++ ·)
+
+def backOrders (w : World) (bs : List Nat) : List (List Nat) :=
+  let act := bs.filter fun b => w.paths.any fun p => p.backend == b && ownPlc p == .backend && p.url.nonEmpty
+  let rest := bs.filter fun b => !act.contains b
+  (perms act).map (rest ++ ·)
+
+def dedupStates (w : World) (l : List St) : List St :=
+  (l.foldl (fun (acc : List (String × St)) st =>
+    let k := showState w st
+    if acc.any (·.1 == k) then acc else acc ++ [(k, st)]) []).map (·.2)
+
+def handleHist (glob ings ops impl : String) : Verdict :=
+  match parseGlob glob with
+  | none => bad "hist-glob"
+  | some (x, l, xns, rs, re) =>
+    let toks0 : Option (List IngTok) := if ings = "-" then some [] else (ings.splitOn ",").mapM parseIng
+    let batches : Option (List (List HistOp)) := (ops.splitOn "/").mapM fun b => (b.splitOn ",").mapM parseOp
+    match toks0, batches with
+    | some toks0, some batches =>
+      -- the slots after each batch and the slots each batch changed
+      let evolved := batches.foldl (fun (acc : Option (List (List (Option IngTok) × List Nat))) b =>
+        match acc with
+        | none => none
+        | some states =>
+          match states.getLast? with
+          | none => none
+          | some (cur, _) => (b.foldlM applyOp (cur, [])).map fun nxt => states ++ [nxt])
+        (some [(toks0.map some, [])])
+      match evolved with
+      | none => bad "hist-op"
+      | some states =>
+        if !histScopeOk (states.map (·.1)) then bad "hist-scope" else
+        match states.mapM (fun s => slotsOf xns s.1) with
+        | none => bad "hist-parse"
+        | some slotss =>
+          let mkW (ss : Slots) : World :=
+            { isExternal := x, hasLua := l, rangeStart := rs, rangeEnd := re, paths := slotPaths ss }
+          match slotss with
+          | [] => bad "hist"
+          | ss0 :: _ =>
+            let w0 := mkW ss0
+            let v := currentVariant
+            let alive (ids : List Nat) := ids.filter (· ≠ deadId)
+            let sts0 := dedupStates w0 ((hostOrders w0 (alive (hostsOf w0))).flatMap fun ho =>
+              (backOrders w0 (alive (backendsOf w0))).map fun bo => run v w0 ho bo)
+            -- the partial syncs
+            let steps := (List.range (slotss.length - 1)).filterMap fun k =>
+              match slotss[k]?, slotss[k+1]?, states[k+1]? with
+              | some old, some new, some (_, touched) => some (mkW old, mkW new, dirtyOf old new touched)
+              | _, _, _ => none
+            let closed := steps.all fun (wo, wn, d) => closedOk wo wn d
+            let fin := steps.foldl (fun (acc : World × List St) (step : World × World × Dirty) =>
+              let (_, wn, d) := step
+              (wn, dedupStates wn (acc.2.flatMap fun st =>
+                (hostOrders wn d.hosts).flatMap fun ho => (backOrders wn d.backs).map fun bo =>
+                  partialSync v wn d ho bo st))) (w0, sts0)
+            let wf := fin.1
+            let dirtyStr := "/".intercalate (steps.map fun (_, _, d) => showDirty d)
+            let outs := fin.2.map fun st => showHistState wf st ++ "||" ++ dirtyStr
+            let m := outs.headD ""
+            if !closed then { model := "bad-op:hist-dirty-sets-not-closed", agree := false, oracle := some "dirty-sets-not-closed" } else
+            if impl = "PANIC" then { model := m, agree := false, oracle := some "panic-in-updater" } else
+            match impl.splitOn "||" with
+            | ps :: bs :: ds :: rest =>
+              match (if ps = "-" then some [] else (ps.splitOn "|").mapM parseObs), parseBinds bs with
+              | some obs, some binds =>
+                let livePaths := (liveIdxs wf).filterMap fun i => wf.paths[i]?
+                if obs.length ≠ livePaths.length then bad "impl-paths" else
+                let wl : World := { wf with paths := livePaths }
+                let core := ps ++ "||" ++ bs ++ "||" ++ ds
+                let agreeing := outs.find? (· = core)
+                let cfgOk := rest.isEmpty
+                { model := agreeing.getD m, agree := agreeing.isSome,
+                  oracle := ((histOracle wl binds obs).orElse fun _ =>
+                    if bindsOk wl.rangeStart wl.rangeEnd binds then none else some "auth-proxy-binds-inconsistent").orElse fun _ =>
+                    if cfgOk then none else some "rendered-auth-proxy-differs-from-bind-list",
+                  trivial := slotss.all fun ss => (slotPaths ss).all fun p => !declared p }
+              | _, _ => bad "impl-output"
+            | _ => bad "impl-output"
+    | _, _ => bad "hist-parse"
+
 /-! ### entry -/
 
 def handle (args : List String) (impl : String) : Verdict :=
@@ -294,6 +478,7 @@ def handle (args : List String) (impl : String) : Verdict :=
   | ["alloc", rs, re, ops] =>
     if impl = "PANIC" then { model := "-", agree := false, oracle := some "panic-in-frontend" } else
     handleAlloc rs re ops impl
+  | ["hist", glob, ings, ops] => handleHist glob ings ops impl
   | [glob, ings] =>
     match parseWorld glob ings with
     | none => bad "parse"
